@@ -394,7 +394,12 @@ func (g *PageGen) table(data bool) string {
 				cell = "th"
 			}
 			sb.WriteString("<" + cell + g.deco() + ">")
-			switch c := g.R.Intn(12); {
+			switch c := g.R.Intn(14); {
+			case c == 12:
+				// a cell without any output of its own: a comment, a script, a hidden element or nothing
+				sb.WriteString(g.R.Pick("<!-- "+g.word()+" -->", "<script>var "+g.word()+"</script>", `<span hidden>`+g.word()+`</span>`, "", " ", `<style>.`+g.word()+`{}</style>`))
+			case c == 13:
+				sb.WriteString(g.words(1) + g.hidden())
 			case c < 8:
 				sb.WriteString(g.words(g.R.Range(1, 4)))
 			case c < 9:
@@ -414,8 +419,34 @@ func (g *PageGen) table(data bool) string {
 	return sb.String()
 }
 
+// hideAttrs: every attribute-level hiding technique; hideTags: elements that may carry it,
+// among them the ones the converter rewrites while walking (font, javascript: anchors)
+var hideAttrs = []string{`hidden`, `hidden="hidden"`, `style="display:none"`, `style="DISPLAY:NONE"`, `style="display: none !important"`,
+	`style="color:red; display :none;"`, `style="visibility:hidden"`, `style="margin:0;visibility: collapse"`, `aria-hidden="true"`}
+var hideTags = []string{"div", "span", "p", "section", "article", "font", "b", "i", "em", "strong", "u", "code", "a", "h2", "h4",
+	"ul", "ol", "li", "blockquote", "pre", "center", "small", "label", "aside", "details", "dl", "address"}
+
 func (g *PageGen) hidden() string {
 	inner := g.words(g.R.Range(1, 8))
+	if g.R.Chance(45) {
+		t := hideTags[g.R.Intn(len(hideTags))]
+		a := hideAttrs[g.R.Intn(len(hideAttrs))]
+		extra := ""
+		switch {
+		case t == "a" && g.R.Chance(50):
+			extra = ` href="javascript:void(0)"`
+		case t == "a":
+			extra = ` href="` + g.linkURL() + `"`
+		case t == "font":
+			extra = ` color="red"`
+		case t == "ul" || t == "ol":
+			inner = "<li>" + inner + "</li>"
+		}
+		if g.R.Chance(50) {
+			return "<" + t + extra + " " + a + ">" + inner + "</" + t + ">"
+		}
+		return "<" + t + " " + a + extra + ">" + inner + "</" + t + ">"
+	}
 	switch g.R.Intn(19) {
 	case 15:
 		return `<figure hidden>` + g.img() + `<figcaption>` + inner + `</figcaption></figure>`
